@@ -133,6 +133,11 @@ type SwapData struct {
 	// TimeOut cancel func. If set and called cancels the timeout context so that
 	// the TimeOut callback does not get called after cancel.
 	toCancel context.CancelFunc
+
+	// requestId is the swap id of the request this swap was created for; it
+	// identifies the swap while no message has been applied yet (a request
+	// that fails validation is answered with a cancel for this id).
+	requestId *SwapId
 }
 
 func (s *SwapData) GetId() *SwapId {
@@ -148,7 +153,7 @@ func (s *SwapData) GetId() *SwapId {
 	if s.SwapOutAgreement != nil {
 		return s.SwapOutAgreement.SwapId
 	}
-	return nil
+	return s.requestId
 }
 
 func (s *SwapData) GetProtocolVersion() uint8 {
@@ -421,6 +426,7 @@ func NewSwapDataFromRequest(swapId *SwapId, senderNodeId string) *SwapData {
 		CreatedAt:       time.Now().Unix(),
 		PrivkeyBytes:    getRandomPrivkey().Serialize(),
 		Role:            SWAPROLE_RECEIVER,
+		requestId:       swapId,
 	}
 }
 
